@@ -3,7 +3,7 @@ import json
 import pickle
 import warnings
 from collections import Counter
-from copy import deepcopy
+from copy import copy, deepcopy
 from dataclasses import asdict, dataclass, field
 from itertools import chain
 from pathlib import Path
@@ -1066,16 +1066,20 @@ class BaseDAGExecution(Generic[P, RVDAG]):
                 to_cache_results = results
             pickle.dump(to_cache_results, f, protocol=pickle.HIGHEST_PROTOCOL, fix_imports=False)
 
-    def _pre_call(self) -> None:
+    def _pre_call(self) -> StrictDict[Identifier, Any]:
         if self.executed or self._launched:
             raise TawaziUsageError("DAGExecution object has already been executed.")
         self._launched = True
 
+        results = self.results
         if self.from_cache:
             with open(self.from_cache, "rb") as f:
                 cached_results = pickle.load(f)  # noqa: S301
-            for node in self.cached_nodes:
-                self.results = cached_results[node.id]
+            # the cached results are given to the scheduler, which prunes the corresponding nodes
+            results = copy(results)
+            for id_, result in cached_results.items():
+                results.force_set(id_, result)
+        return results
 
     def _post_call(self) -> RVDAG:
         # mark as executed. Important for the next step
@@ -1115,11 +1119,11 @@ class DAGExecution(BaseDAGExecution[P, RVDAG]):
         Returns:
             RVDAG: the return value of the DAG's Execution
         """
-        self._pre_call()
+        results = self._pre_call()
 
         # 2. Execute the scheduler
         self.xn_dict, self.results, self.profiles = self.dag.run_subgraph(
-            self.graph, self.results, *args
+            self.graph, results, *args
         )
 
         return self._post_call()
@@ -1150,11 +1154,11 @@ class AsyncDAGExecution(BaseDAGExecution[P, RVDAG]):
         Returns:
             RVDAG: the return value of the DAG's Execution
         """
-        self._pre_call()
+        results = self._pre_call()
 
         # 2. Execute the scheduler
         self.xn_dict, self.results, self.profiles = await self.dag.run_subgraph(
-            self.graph, self.results, *args
+            self.graph, results, *args
         )
 
         return self._post_call()
